@@ -47,7 +47,7 @@ def pick_channels(rng, tree):
     return [one]
 
 
-def commands(ctx, rng, world, count, ncmd, truth=None, np=None, digital_rf=None):
+def commands(ctx, rng, world, count, ncmd, truth=None, np=None, digital_rf=None, sync=False):
     tree = world.tree
     wins = drv.windows(tree.points())
     flags = drv.flag_combos()
@@ -60,8 +60,15 @@ def commands(ctx, rng, world, count, ncmd, truth=None, np=None, digital_rf=None)
         cmd = rng.choice(["cp", "cp", "mv", "ln", "ln"])
         sym = cmd == "ln" and rng.random() < 0.5
         chs = pick_channels(rng, tree)
+        if sync and rng.random() < 0.7:
+            # a multi-channel recording transferred channel by channel, often without the properties files
+            tops = sorted({c["path"] for c in tree.chans if c["path"]})
+            chs = rng.sample(tops, len(tops))
+            if rng.random() < 0.6:
+                o.update(dp=0, mp=0)
         ev = world.run(cmd, o, chs=chs, symbolic=sym, comma=rng.random() < 0.4, float_time=rng.random() < 0.4,
-                       rel_end=rng.random() < 0.25, spelling=rng.choice([0, 0, 0, 1, 2, 3]))
+                       rel_end=rng.random() < 0.25, spelling=rng.choice([0, 0, 0, 1, 2, 3]),
+                       via_link=rng.random() < (0.5 if sym else 0.15))
         evs.append(ev)
         count[cmd + ("-s" if sym else "")] = count.get(cmd + ("-s" if sym else ""), 0) + 1
         count["files_transferred"] += len(ev["new"])
@@ -95,6 +102,9 @@ def e3(ctx):
             b = rng.choice(drv.BASES)
             t = drv.core_tree(b - b % cad, rng.choice(["ch", "", "grp/ch"]), ckind, pats, cad)
             desc = "%s channel, subdirs %s" % (ckind, "/".join(pats))
+        elif n % 3 == 1 and n % 2 == 0:
+            t = drv.sync_tree(rng)
+            desc = "synchronised channels"
         else:
             t = drv.random_tree(rng)
             desc = "random tree"
@@ -103,7 +113,7 @@ def e3(ctx):
         if os.path.exists(base):
             shutil.rmtree(base)
         w = drv.TransferWorld(t, base)
-        evs = commands(ctx, rng, w, count, 3)
+        evs = commands(ctx, rng, w, count, 3, sync=desc == "synchronised channels")
         scen.append(scenario("tree%d" % n, desc, w, evs))
         count["trees"] += 1
     for n in range(ctx.pick(12, 300)):
